@@ -634,3 +634,18 @@ Example in_exact_domain_example :
                     {| v_start := 3; v_end := 5; v_bits := 3223322624 |} ] = true
   /\ in_exact_domain [ {| v_start := 0; v_end := 1; v_bits := 1036831949 |} ] = false.   (* 0.1f32 is not a multiple of 1/8 *)
 Proof. split; vm_compute; reflexivity. Qed.
+
+(* the generator domain: for an input in [in_exact_domain] the IEEE summary is the exact one (unit 2^-149) *)
+Theorem bw_collect_ieee_in_domain o sizes input ids outs sum data :
+  let all := map snd input in
+  in_exact_domain all = true ->
+  bw_collect ieee o sizes input = Ok (ids, outs, sum, data) ->
+  wform dom_E sum (Nlen all) (w_bases all) (w_sum dom_E all) (w_sumsq dom_E all)
+        (w_min dom_E all (fval dom_E f64_max)) (w_max dom_E all (fval dom_E f64_min)) /\
+  exists sum_e, bw_collect exact o sizes input = Ok (ids, outs, sum_e, data) /\
+    su_items sum = su_items sum_e /\ su_bases sum = su_bases sum_e /\ su_min sum = su_min sum_e /\ su_max sum = su_max sum_e /\
+    same_num (su_sum sum) (su_sum sum_e) /\ same_num (su_sumsq sum) (su_sumsq sum_e).
+Proof.
+  intros all Hd H. destruct (in_exact_domain_hyps all Hd) as (Hok & Hg & B1 & B2).
+  exact (bw_collect_ieee_wform dom_E dom_G o sizes input ids outs sum data Hok Hg B1 B2 H).
+Qed.
